@@ -45,10 +45,19 @@ def showObs (o : List (Str × String × String) × List Nat) : String :=
 
 def model (toks : List String) : String :=
   match toks with
+  | "I" :: "q" :: lvl :: ";;" :: _ =>
+    -- `enabled!`: evaluates to "would a span / event with this metadata be enabled now"; visits nothing, evaluates nothing
+    match lvl.toNat? with
+    | some l => " / ".intercalate ([Regime.enable, .staticNever, .dynamicFalse, .cap 2].map fun r =>
+        s!"v=71:enabled:{if enabledUnder r l then 1 else 0}|e=-")
+    | none => "bad-case"
   | "I" :: _ :: lvl :: ";;" :: rest =>
     match lvl.toNat?, ((splitOn' "," rest []).filter (!·.isEmpty)).mapM parseField with
     | some l, some fs =>
-      " / ".intercalate ([Regime.enable, .staticNever, .dynamicFalse, .cap 2].map fun r => showObs (invoke r l fs))
+      -- (the collector also notes the LEVEL of the span / event it is handed: the shorthand's own level, whatever the prefix)
+      " / ".intercalate ([Regime.enable, .staticNever, .dynamicFalse, .cap 2].map fun r =>
+        let o := invoke r l fs
+        showObs (if enabledUnder r l then (("6c766c", "level", toString l) :: o.1, o.2) else o))
     | _, _ => "bad-case"
   | _ => "bad-case"
 
